@@ -19,18 +19,41 @@ Import ListNotations.
      EXCEPTED e : the future holds e;           closed; hooks released
      KILLED m   : the future holds KilledError(text of m); closed; hooks released
      live       : the future is pending (or was cancelled by its owner, which kills the process one callback later);
-                  not closed; hooks in place.
+                  not closed; hooks in place;
+   and the trace holds exactly one terminal notification + one run of the registered cleanup in a terminal state, none before.
    The payload of the state is what result() / successful() / exception() / killed_msg() read. *)
 Theorem C02_reports_agree_at_every_point :
   forall c es w, cf_fault c = None -> run c es = Some w ->
     match st w with
-    | Some (SFinished _ _) => pfut w = PfResult (outputs w) /\ closed w = true /\ hooks_alive w = false
-    | Some (SExcepted e) => pfut w = PfExn e /\ closed w = true /\ hooks_alive w = false
-    | Some (SKilled m) => pfut w = PfExn (EKilled (killed_text m)) /\ closed w = true /\ hooks_alive w = false
+    | Some (SFinished _ _) =>
+        pfut w = PfResult (outputs w) /\ closed w = true /\ hooks_alive w = false
+        /\ marks (trace w) = [EvListener "on_process_finished"; EvCleanup 0] /\ cleanups w = []
+    | Some (SExcepted e) =>
+        pfut w = PfExn e /\ closed w = true /\ hooks_alive w = false
+        /\ marks (trace w) = [EvListener "on_process_excepted"; EvCleanup 0] /\ cleanups w = []
+    | Some (SKilled m) =>
+        pfut w = PfExn (EKilled (killed_text m)) /\ closed w = true /\ hooks_alive w = false
+        /\ marks (trace w) = [EvListener "on_process_killed"; EvCleanup 0] /\ cleanups w = []
     | _ => (pfut w = PfPending \/ pfut w = PfCancelled) /\ closed w = false /\ hooks_alive w = true
+           /\ marks (trace w) = [] /\ cleanups w = [0]
     end.
 Proof. exact reports_agree. Qed.
 Print Assumptions C02_reports_agree_at_every_point.
+
+(* listeners receive exactly one terminal notification — of the kind of the final state — and the registered cleanup runs exactly
+   once, after it; neither happens while the process is live.  [is_mark] selects the three terminal notifications and the
+   cleanup events of the trace (Life/LifeAgree.v) *)
+Theorem C02_one_notification_one_cleanup :
+  forall c es w, cf_fault c = None -> run c es = Some w ->
+    filter is_mark (trace w) =
+      match st w with
+      | Some (SFinished _ _) => [EvListener "on_process_finished"; EvCleanup 0]
+      | Some (SExcepted _) => [EvListener "on_process_excepted"; EvCleanup 0]
+      | Some (SKilled _) => [EvListener "on_process_killed"; EvCleanup 0]
+      | _ => []
+      end.
+Proof. exact one_notification_one_cleanup. Qed.
+Print Assumptions C02_one_notification_one_cleanup.
 
 (* conversely the future is never resolved while the process is live *)
 Theorem C02_future_never_resolved_while_live :
